@@ -364,7 +364,11 @@ fn check_signatures(st: &mut Stats) {
         ("array-of-number-arrays", "`[[1],[2]]`"), ("array-of-mixed-arrays", "`[[1],[\"a\"]]`"), ("number-string-number", "`[1,\"a\",2]`"),
         ("array-of-objects", "`[{\"a\":1},{}]`"), ("object-then-number", "`[{},1]`"),
         ("array-containing-expref", "[a, &a]"), ("nested-array-containing-expref", "[[&a]]"),
+        // arguments taken from the document: a repeated field (or the current node twice) hands the *same node* to
+        // two parameters
+        ("field-null", "n_"), ("field-string", "s_"), ("field-number", "num_"), ("field-number-array", "an_"), ("field-object", "o_"), ("current-node", "@"),
     ]);
+    let sig_doc = json!({"a": 1, "n_": null, "s_": "a", "num_": 1, "an_": [1, 2], "o_": {"a": 1}});
     for (tname, at, ty) in sig_types() {
         // mode 0: one fixed parameter; 1: one parameter and a variadic tail of the same type; 2: a string parameter
         // followed by a variadic tail of the type (the tail is validated for every further argument)
@@ -422,11 +426,13 @@ fn check_signatures(st: &mut Stats) {
                 st.validated += 1;
                 let mut texts: Vec<&str> = aset.iter().map(|&i| classes[i].1).collect();
                 if mode == 2 {
-                    texts.insert(0, "'lead'");
+                    // the leading string is the document's string field: when the tail repeats that field the two
+                    // parameters (string, T) receive the same node
+                    texts.insert(0, "s_");
                 }
                 let src = format!("sf({})", texts.join(", "));
                 LOG.with(|l| l.borrow_mut().clear());
-                let got = guarded(|| rt.compile(&src).unwrap().search(value_to_var(&json!({"a": 1}))).map(|v| var_to_value(&v)));
+                let got = guarded(|| rt.compile(&src).unwrap().search(value_to_var(&sig_doc)).map(|v| var_to_value(&v)));
                 let invoked = LOG.with(|l| l.borrow().len());
                 // reference: arity, then every argument admitted
                 // arguments written as a multi-select list with an expref inside only parse under the
@@ -446,23 +452,23 @@ fn check_signatures(st: &mut Stats) {
                 }
                 /// does the parameter type admit the value this argument node denotes?  (arrays that
                 /// hold expression references cannot be represented as JSON, so decide on the node)
-                fn admits_node(t: &Ty, n: &rparse::N) -> bool {
+                fn admits_node(t: &Ty, n: &rparse::N, doc: &Value) -> bool {
                     match &n.k {
                         rparse::K::Expref(_) => match t {
                             Ty::Expref => true,
-                            Ty::Union(ts) => ts.iter().any(|u| admits_node(u, n)),
+                            Ty::Union(ts) => ts.iter().any(|u| admits_node(u, n, doc)),
                             _ => false,
                         },
                         rparse::K::MultiList(items) if holds_expref(n) => match t {
                             Ty::Any | Ty::Array => true,
-                            Ty::ArrayOf(e) => items.iter().all(|x| admits_node(e, x)),
-                            Ty::Union(ts) => ts.iter().any(|u| admits_node(u, n)),
+                            Ty::ArrayOf(e) => items.iter().all(|x| admits_node(e, x, doc)),
+                            Ty::Union(ts) => ts.iter().any(|u| admits_node(u, n, doc)),
                             _ => false,
                         },
-                        _ => t.admits(&Eval::builtin().ev(n, &json!({"a": 1})).unwrap()),
+                        _ => t.admits(&Eval::builtin().ev(n, doc).unwrap()),
                     }
                 }
-                let admits: Vec<bool> = arg_nodes.iter().enumerate().map(|(i, x)| if mode == 2 && i == 0 { admits_node(&Ty::String, x) } else { admits_node(&ty, x) }).collect();
+                let admits: Vec<bool> = arg_nodes.iter().enumerate().map(|(i, x)| if mode == 2 && i == 0 { admits_node(&Ty::String, x, &sig_doc) } else { admits_node(&ty, x, &sig_doc) }).collect();
                 let arity_ok = if variadic { !admits.is_empty() } else { admits.len() == 1 };
                 let want: Result<(), ErrClass> = if !arity_ok {
                     Err(ErrClass::InvalidArity)
@@ -573,7 +579,9 @@ pub fn run(tier: Tier) -> i32 {
         let call = format!("rec({})", v.join(", "));
         for form in [call.clone(), format!("xs[*].{}", call), format!("to_array({})", call), format!("[{}, rec2(b)]", call), format!("xs[?{}]", call), format!("b | {}", call), format!("sort_by(xs, &{})", call), format!("rec2(`0`) && {}", call), format!("rec2(`[]`) && {}", call),
             // behind a null left-hand side, alone and with a further step applied to the call's result
-            format!("nokey | {}", call), format!("nokey.{}", call), format!("nokey | {}.a", call), format!("nokey | {}[0]", call), format!("nokey | {}[]", call), format!("nokey.{}[0]", call), format!("nokey | {}.*", call), format!("nokey | {} | [@]", call)] {
+            format!("nokey | {}", call), format!("nokey.{}", call), format!("nokey | {}.a", call), format!("nokey | {}[0]", call), format!("nokey | {}[]", call), format!("nokey.{}[0]", call), format!("nokey | {}.*", call), format!("nokey | {} | [@]", call),
+            // as an operand of a comparison whose other operand is not a number
+            format!("'s' < {}", call), format!("b >= {}", call), format!("{} <= 's'", call), format!("xs[?nokey > {}]", call), format!("`true` == {}", call)] {
             check_protocol(&rt, &form, &d, &mut st);
         }
     }
@@ -585,7 +593,7 @@ pub fn run(tier: Tier) -> i32 {
         }
     }
     check_signatures(&mut st);
-    rep.rule = "explicit-state BFS over all histories of register(name, A|B|Sig) / deregister(name) / register_builtins over the names {abs, length, foo} up to the depth bound; after every history get_function presence for 6 names and 8 probe calls compiled from that runtime are compared with the reference map (most recent registration still registered wins; builtins per R-fn; unknown-function otherwise). Call protocol: recording custom functions on every argument vector up to the bound over {a, b, &a, `1`, rec2(a), rec2(&b, b)} in 9 contexts: recorded argument images, invocation order and results equal R-eval's; CustomFunction x 12 signature types x {fixed, variadic} x all argument class vectors of length <= 2: closure invoked iff the signature is satisfied. non-trivial = non-empty history / function actually invoked Custom signatures in three shapes (one parameter; parameter + variadic tail; string parameter + variadic tail of the type) with every argument vector up to length 3 (variadic) and a 5-class subset at length 4; protocol contexts include a null left-hand side with and without a further step applied to the call.".into();
+    rep.rule = "explicit-state BFS over all histories of register(name, A|B|Sig) / deregister(name) / register_builtins over the names {abs, length, foo} up to the depth bound; after every history get_function presence for 6 names and 8 probe calls compiled from that runtime are compared with the reference map (most recent registration still registered wins; builtins per R-fn; unknown-function otherwise). Call protocol: recording custom functions on every argument vector up to the bound over {a, b, &a, `1`, rec2(a), rec2(&b, b)} in 9 contexts: recorded argument images, invocation order and results equal R-eval's; CustomFunction x 12 signature types x {fixed, variadic} x all argument class vectors of length <= 2: closure invoked iff the signature is satisfied. non-trivial = non-empty history / function actually invoked Custom signatures in three shapes (one parameter; parameter + variadic tail; string parameter + variadic tail of the type) with every argument vector up to length 3 (variadic) and a 5-class subset at length 4; protocol contexts include a null left-hand side with and without a further step applied to the call. Argument classes include document fields and the current node, so that the same node reaches two parameters; calls also stand as operands of comparisons with a non-number on the other side.".into();
     rep.bounds = json!({"history_depth": depth, "operations": nops, "protocol_max_args": maxargs});
     rep.stats = st;
     rep.finish()
